@@ -240,14 +240,21 @@ Qed.
 (* ------------------------------------------------------------------ .frac-cache *)
 
 Definition honest (hdr : nat -> info) (c : cmap) : Prop := forall n i, cget c n = Some i -> i = hdr n.
-Definition honest_file (hdr : nat -> info) (f : option cmap) : Prop :=
-  match f with Some c => honest hdr c | None => True end.
+Definition benign (hdr : nat -> info) (c : cmap) : Prop := forall n i, cget c n = Some i -> entry_benign hdr n i.
+Definition benign_file (hdr : nat -> info) (f : option cmap) : Prop :=
+  match f with Some c => benign hdr c | None => True end.
 
-Lemma new_sealed_honest (hdr : nat -> info) n e : (forall i, e = Some i -> i = hdr n) -> new_sealed e (hdr n) = hdr n.
+Lemma new_sealed_benign (hdr : nat -> info) n e :
+  (forall i, e = Some i -> entry_benign hdr n i) -> new_sealed e (hdr n) = hdr n.
 Proof.
   intro H. unfold new_sealed. destruct e as [i|]; [|reflexivity].
-  destruct (0 <? i_idxod i)%N; [|reflexivity]. apply H. reflexivity.
+  destruct (H i eq_refl) as [E|E].
+  - subst. destruct (0 <? i_idxod (hdr n))%N; reflexivity.
+  - rewrite E. reflexivity.
 Qed.
+
+Lemma honest_benign hdr c : honest hdr c -> benign hdr c.
+Proof. intros H n i Hi. left. apply (H n i Hi). Qed.
 
 Lemma cget_cdel c n m : cget (cdel c n) m = if Nat.eqb n m then None else cget c m.
 Proof.
@@ -266,34 +273,48 @@ Proof.
   intros H m i. rewrite cget_cdel. destruct (Nat.eqb n m); [discriminate|]. apply H.
 Qed.
 
-Definition c_inv hdr (s : cst) : Prop := honest hdr (c_mem s) /\ honest_file hdr (c_file s).
-
 Lemma honest_nil hdr : honest hdr [].
 Proof. intros n i H. discriminate. Qed.
 
-Lemma c_step_inv hdr s o : c_inv hdr s -> c_inv hdr (c_step hdr s o).
+(* memory entries are always the header values; the file holds header values or recognisably damaged entries *)
+Definition c_inv hdr (s : cst) : Prop := honest hdr (c_mem s) /\ benign_file hdr (c_file s).
+
+Lemma c_step_inv hdr s o : cop_benign hdr o -> c_inv hdr s -> c_inv hdr (c_step hdr s o).
 Proof.
-  intros [Hm Hf]. destruct o; unfold c_inv; cbn [c_step c_mem c_file].
+  intros Hb [Hm Hf]. destruct o; unfold c_inv; cbn [c_step c_mem c_file].
   - split; [|exact Hf]. intros m i. cbn [cget]. destruct (Nat.eqb m n) eqn:E.
-    + apply Nat.eqb_eq in E. subst m. intro H. inversion H; subst. apply new_sealed_honest.
+    + apply Nat.eqb_eq in E. subst m. intro H. inversion H; subst. apply new_sealed_benign.
       destruct (c_file s) as [f|]; [|discriminate]. intros j Hj. apply (Hf n j Hj).
     + apply (honest_cdel hdr _ n Hm).
   - split; [apply honest_cdel; exact Hm|exact Hf].
-  - split; [exact Hm|exact Hm].
+  - split; [exact Hm|apply honest_benign; exact Hm].
   - split; [apply honest_nil|exact I].
+  - split; [exact Hm|exact Hb].
   - split; [apply honest_nil|exact Hf].
 Qed.
 
-Lemma c_run_inv hdr ops : c_inv hdr (c_run hdr ops).
+Lemma c_run_inv hdr ops : Forall (cop_benign hdr) ops -> c_inv hdr (c_run hdr ops).
 Proof.
-  unfold c_run. assert (G : forall s, c_inv hdr s -> c_inv hdr (fold_left (c_step hdr) ops s)).
-  { induction ops as [|o r IH]; simpl; intros s H; [exact H|]. apply IH. apply c_step_inv. exact H. }
-  apply G. split; [intros n i; discriminate|exact I].
+  unfold c_run. intro HF.
+  assert (G : forall s, c_inv hdr s -> c_inv hdr (fold_left (c_step hdr) ops s)).
+  { induction HF as [|o r Ho _ IH]; simpl; intros s H; [exact H|]. apply IH. apply c_step_inv; assumption. }
+  apply G. split; [apply honest_nil|exact I].
 Qed.
 
-Lemma cache_transparent hdr ops n :
+Lemma cache_transparent hdr ops n : Forall (cop_benign hdr) ops ->
   new_sealed (match c_file (c_run hdr ops) with Some f => cget f n | None => None end) (hdr n) = hdr n.
 Proof.
-  apply new_sealed_honest. destruct (c_run_inv hdr ops) as [_ Hf].
+  intro HF. apply new_sealed_benign. destruct (c_run_inv hdr ops HF) as [_ Hf].
   destruct (c_file (c_run hdr ops)) as [f|]; [|discriminate]. intros i Hi. apply (Hf n i Hi).
+Qed.
+
+(* the guard of the fast path is what makes a damaged entry harmless: without it the entry is used *)
+Definition new_sealed_noguard (cached : option info) (hdr : info) : info :=
+  match cached with Some i => i | None => hdr end.
+Lemma noguard_refuted :
+  exists e hdr, (forall i, e = Some i -> i_idxod i = 0%N) /\ new_sealed_noguard e hdr <> hdr /\ new_sealed e hdr = hdr.
+Proof.
+  exists (Some (mkinfo 0 0 0 0 0 0)), (mkinfo 3 10 30 80 1200 0). repeat split.
+  - intros i H. inversion H. reflexivity.
+  - discriminate.
 Qed.
